@@ -40,7 +40,7 @@ def Inv (s : St) : Prop :=
   (∀ g, s.run = some g → g < s.nextGen) ∧
   (∀ g, g ∈ s.cancelled → g < s.nextGen) ∧
   (∀ g, g ∈ s.stopCancel → g < s.nextGen) ∧
-  (∀ g, s.go = some (g, .returned false) → (g ∈ s.cancelled ∨ s.parent = true)) ∧
+  (∀ g, s.go = some (g, .returned false) → (g ∈ s.cancelled ∨ s.parent = true ∨ s.ownReturned = true)) ∧
   (∀ g, s.go = some (g, .returned true) → s.ownReturned = true)
 
 theorem inv_init : Inv {} := by
@@ -76,7 +76,7 @@ theorem inv_easy (s s' : St) (l : Label) (h : Inv s) (he : exec s l = some s')
     refine ⟨h1, h2, h3, h4, h5, h6, ?_, h8, ?_, h10, h11, h12, h13, h14, h15, h16, h17, ?_, h19⟩
     · intro hd; obtain ⟨a, b, c, _⟩ := h7 hd; exact ⟨a, b, c, Or.inl trivial⟩
     · intro _; exact Or.inl trivial
-    · intro g hg; exact Or.inr trivial
+    · intro g hg; exact Or.inr (Or.inl trivial)
   · simp only [exec] at he
     split_ifs at he
     cases run with
@@ -258,7 +258,7 @@ set_option maxHeartbeats 2000000
 
 /-- goroutine steps that only move its program counter (and ghost/observable counters) -/
 theorem inv_goMove (s s' : St) (l : Label) (h : Inv s) (he : exec s l = some s')
-    (hl : l = .goBegin ∨ l = .goReturnCtx ∨ l = .goReturnOwn ∨ l = .goDecide) : Inv s' := by
+    (hl : l = .goBegin ∨ l = .goReturnCtx ∨ l = .goReturnOwn ∨ l = .goDecide ∨ l = .goReturnOwnCtx) : Inv s' := by
   obtain ⟨isRunning, isDone, doneClosed, parent, run, nextGen, cancelled, stopClosed, nCas, nLoadDone, nStoreRun,
     spawnPending, nStopLoad, stopCancel, go, tails, active, invocations, doneLocked, ownReturned, twoHolders,
     doubleClose⟩ := s
@@ -266,7 +266,7 @@ theorem inv_goMove (s s' : St) (l : Label) (h : Inv s) (he : exec s l = some s')
   simp only at h
   obtain ⟨h1, h2, h3, h4, h5, h6, h7, h8, h9, h10, h11, h12, h13, h14, h15, h16, h17, h18, h19⟩ := h
   cases go with
-  | none => rcases hl with rfl | rfl | rfl | rfl <;> simp [exec] at he
+  | none => rcases hl with rfl | rfl | rfl | rfl | rfl <;> simp [exec] at he
   | some gp =>
     obtain ⟨g, pc⟩ := gp
     simp only [Option.isSome_some, b2n_true, Option.map_some] at h1 h2 h5 h7 h8 h9 h10 h11 h12 h13 h14
@@ -279,7 +279,7 @@ theorem inv_goMove (s s' : St) (l : Label) (h : Inv s) (he : exec s l = some s')
         rw [hd] at h7
         obtain ⟨_, _, c, _⟩ := h7 rfl
         rcases hp with rfl | rfl | rfl | rfl <;> simp at c
-    rcases hl with rfl | rfl | rfl | rfl
+    rcases hl with rfl | rfl | rfl | rfl | rfl
     · -- goBegin
       cases pc <;> simp only [exec] at he <;> try (cases he)
       have hd := hdoneF .begin (Or.inl rfl); subst hd
@@ -302,7 +302,9 @@ theorem inv_goMove (s s' : St) (l : Label) (h : Inv s) (he : exec s l = some s')
       simp only [Option.some.injEq, Prod.mk.injEq, and_true] at hg'
       subst hg'
       simp only [Bool.or_eq_true, List.contains_iff_mem] at hc
-      exact hc
+      rcases hc with hc | hc
+      · exact Or.inl hc
+      · exact Or.inr (Or.inl hc)
     · -- goReturnOwn
       cases pc <;> simp only [exec] at he <;> try (cases he)
       have hd := hdoneF .running (Or.inr (Or.inl rfl)); subst hd
@@ -333,11 +335,20 @@ theorem inv_goMove (s s' : St) (l : Label) (h : Inv s) (he : exec s l = some s')
         cases own with
         | true => exact Or.inr (h19 g rfl)
         | false =>
-          rcases h18 g rfl with hcanc | hpar
+          rcases h18 g rfl with hcanc | hpar | hown
           · cases hp : parent with
             | true => exact Or.inl rfl
             | false => rw [hp] at hc; simp [hcanc] at hc
           · exact Or.inl hpar
+          · exact Or.inr hown
+    · -- goReturnOwnCtx
+      cases pc <;> simp only [exec] at he <;> try (cases he)
+      have hd := hdoneF .running (Or.inr (Or.inl rfl)); subst hd
+      unfold Inv holders goPc goGen
+      simp only [Option.isSome_some, b2n_true, Option.map_some]
+      refine ⟨h1, h2, h3, h4, by simp [h5], h6, (fun x => by cases x), (fun x => by have := (h8 x).1; cases this),
+        (fun x => by simp at x), (fun x => by simp at x), (fun x => by simp at x), h12, h13, h14, h15, h16, h17,
+        (fun g x => Or.inr (Or.inr trivial)), (fun g x => trivial)⟩
 
 end PRV.Proofs.C12
 
@@ -505,7 +516,8 @@ theorem inv_step (s s' : St) (l : Label) (h : Inv s) (he : exec s l = some s') :
   | goBegin => exact inv_goMove s s' _ h he (Or.inl rfl)
   | goReturnCtx => exact inv_goMove s s' _ h he (Or.inr (Or.inl rfl))
   | goReturnOwn => exact inv_goMove s s' _ h he (Or.inr (Or.inr (Or.inl rfl)))
-  | goDecide => exact inv_goMove s s' _ h he (Or.inr (Or.inr (Or.inr rfl)))
+  | goDecide => exact inv_goMove s s' _ h he (Or.inr (Or.inr (Or.inr (Or.inl rfl))))
+  | goReturnOwnCtx => exact inv_goMove s s' _ h he (Or.inr (Or.inr (Or.inr (Or.inr rfl))))
   | goSetDone => exact inv_goDone s s' _ h he (Or.inl rfl)
   | goCloseDone => exact inv_goDone s s' _ h he (Or.inr rfl)
   | goReset => exact inv_goReset s s' h he
